@@ -914,6 +914,16 @@ def rule_c19_commands(prog: Program, col: Collector) -> None:
                   f"SAVERS[{e.key!r}] only runs for a name that is not stored yet (its own skip-if-present guard, or the dispatcher's)", construct=f"saver-unguarded:{e.key}",
                   necessity="saving under an existing name must change nothing: an unguarded plot saver overwrites the earlier run's figure with the new data while data.json keeps "
                             "the old entry (and the directory-creating saver raises FileExistsError afterwards)")
+    # the primary record first: an auxiliary saver that fails (a run name with a path separator, a name too long for a file) must not
+    # prevent the result matrices from being stored
+    jq = json_saver(prog).qual
+    first = entries[0] if entries else None
+    fq = prog.resolve(first.module, first.value) if first is not None else None
+    fr = prog.find_func(fq) if fq else None
+    col.check(fr is not None and fr.qual == jq, f"{first.module.rel()}:{first.node.lineno}" if first is not None else "-", "run.save.SAVERS",
+              f"the JSON saver is the first entry of SAVERS (found first: {first.key if first is not None else None!r})", construct="json-saver-not-first",
+              necessity="save() calls the savers in registry order: a plot saver that raises before the JSON saver ran (run name 'exp/run1': FileNotFoundError for "
+                        "data_plots/exp/run1.png) loses the gap and action matrices of a finished evaluation", rule="REG-V")
     # distinct names must give distinct files: with_suffix() replaces everything after the last dot of the NAME
     nsfx = 0
     for e in entries:
